@@ -35,8 +35,10 @@
          run_rustc                          ok: CompLib := Val s; fails: old value or Torn, component stops
          write_component_digest                                                          (build.rs:497)
        any component failed                -> Failed (no pruning, no theory digest)      (build.rs:633)
-       remove_stale_component_file*         every existing file of a component that is not in v, in
-                                            read_dir order (arbitrary: the schedule gives it)  (build.rs:649)
+       remove_stale_component_file*         every existing file of a component that is not in v: the stale
+                                            paths are collected in read_dir order (arbitrary: the schedule
+                                            gives it) and stably sorted so that all `.digest` files come
+                                            first; then removed in that order          (build.rs:649-675)
        write_theory_digest                                                               (build.rs:374)
    * A crash keeps the first k mutations; with the torn flag, and if mutation k+1 is a `write_*`, its file is
      left [Torn].
@@ -49,7 +51,12 @@ From Coq Require Import List NArith Bool.
 Import ListNotations.
 Open Scope N_scope.
 
-Arguments N.add N.sub N.mul N.eqb N.ltb N.leb : simpl never.
+Arguments N.add : simpl never.
+Arguments N.sub : simpl never.
+Arguments N.mul : simpl never.
+Arguments N.eqb : simpl never.
+Arguments N.ltb : simpl never.
+Arguments N.leb : simpl never.
 
 (* ------------------------------------------------------------------ files *)
 
@@ -164,8 +171,9 @@ Definition is_member (cs : list comp) (c : N) : bool :=
                   component in rule order advances -- unless some rustc has failed, in which case the build
                   stops there (so after a failure the others perform exactly the steps the schedule lists:
                   any prefix of their work).
-   s_prune      : preferred removal order of stale files (read_dir order); stale files not listed follow in
-                  the canonical order (per stale component: digest, library, source).
+   s_prune      : read_dir order of the stale files: the listed stale files first, in that order, the stale
+                  files not listed after them in the canonical order (per stale component: digest, library,
+                  source).  The removal order is this list stably sorted digests-first (build.rs:669).
    s_rustc_fail : (component name, leaves_torn) -- rustc fails for that component in this build and leaves
                   the library as it was (false) or torn (true). *)
 Record schedule := mkSched {
@@ -320,9 +328,20 @@ Definition prune_order (pref stale : list fkey) : list fkey :=
   let p := dedup_keys (filter (fun k => mem_key k stale) pref) in
   p ++ filter (fun k => negb (mem_key k p)) stale.
 
+Definition is_digest_key (k : fkey) : bool :=
+  match k with CompDigest _ => true | _ => false end.
+
+(* build.rs:669  `stale_paths.sort_by_key(|path| path.extension() != Some("digest"))` -- a stable sort on a
+   boolean key is this partition. *)
+Definition digest_first (o : list fkey) : list fkey :=
+  filter is_digest_key o ++ filter (fun k => negb (is_digest_key k)) o.
+
+(* The removal order: read_dir order of the stale files, digests moved to the front. *)
+Definition prune_list (sched : schedule) (cs : list comp) (fs : fsys) : list fkey :=
+  digest_first (prune_order (s_prune sched) (stale_keys cs fs)).
+
 Definition prune_steps (sched : schedule) (cs : list comp) (fs : fsys) : list step :=
-  map (fun k => mkStep remove_stale_component_file k Absent)
-      (prune_order (s_prune sched) (stale_keys cs fs)).
+  map (fun k => mkStep remove_stale_component_file k Absent) (prune_list sched cs fs).
 
 (* What print_cargo_link_directives emits: every *.rlib in the component directory (module mode: nothing). *)
 Definition linked (md : mode) (fs : fsys) : list N :=
@@ -390,15 +409,20 @@ Definition run_build (md : mode) (tbl : table) (v : N) (fs : fsys) (sched : sche
   end.
 
 (* A pruning step that removes a component source while that component's digest still parses is the one
-   order of removals after which a kill leaves a digest vouching for a missing file (see Facts). *)
+   order of removals after which a kill leaves a digest vouching for a missing file (Regress.v shows the
+   stale build this caused when the removals were done in plain read_dir order).  With digests removed first
+   it cannot happen: FactsPrune.build_prune_safe proves this check true for every build of this model.  It
+   is kept (and printed by Run.v) so that traces of the implementation can be checked against it. *)
+Definition step_safe (fs : fsys) (m : step) : bool :=
+  match s_lbl m, s_key m with
+  | remove_stale_component_file, CompSrc c => negb (is_val (get fs (CompDigest c)))
+  | _, _ => true
+  end.
+
 Fixpoint steps_prune_safe (fs : fsys) (ms : list step) : bool :=
   match ms with
   | [] => true
-  | m :: r =>
-      (match s_lbl m, s_key m with
-       | remove_stale_component_file, CompSrc c => negb (is_val (get fs (CompDigest c)))
-       | _, _ => true
-       end) && steps_prune_safe (apply_step m fs) r
+  | m :: r => step_safe fs m && steps_prune_safe (apply_step m fs) r
   end.
 
 (* ------------------------------------------------------------------ histories *)
